@@ -64,10 +64,10 @@ ModeOf(m) == IF m = "r" THEN SFM_READ ELSE IF m = "w" THEN SFM_WRITE ELSE SFM_RD
 
 \* observation of a data-path call, from the event
 ObsOf(e) == [ret |-> Get(e, "ret", 0), out |-> Get(e, "out", <<>>), outn |-> Get(e, "outn", Len(Get(e, "out", <<>>))), tz |-> Get(e, "tz", 1), guard |-> Get(e, "guard", 1),
-             er |-> e.st.er, rp |-> e.st.rp, wp |-> e.st.wp, fr |-> e.st.fr, nd |-> e.st.nd, nf |-> e.st.nf]
+             er |-> e.st.er, rp |-> e.st.rp, wp |-> e.st.wp, fr |-> e.st.fr, nd |-> e.st.nd, nf |-> e.st.nf, sif |-> e.st.sif, sfi |-> e.st.sfi, cl |-> e.st.cl]
 
 CallOf(e) == CASE e.op = "read"  -> [op |-> "read", T |-> e.T, unit |-> e.unit, n |-> e.n, dy |-> Get(cfg, "fmode", 0) = 1]
-               [] e.op = "write" -> [op |-> "write", T |-> e.T, unit |-> e.unit, n |-> e.n, v |-> e.v]
+               [] e.op = "write" -> [op |-> "write", T |-> e.T, unit |-> e.unit, n |-> e.n, v |-> e.v, dy |-> Get(cfg, "fmode", 0) = 1]
                [] e.op = "seek"  -> [op |-> "seek", off |-> e.off, wh |-> e.wh]
                [] e.op = "trunc" -> [op |-> "trunc", n |-> e.n]
                [] e.op = "cmd"   -> [op |-> "cmd", name |-> e.name, val |-> e.val]
@@ -288,7 +288,7 @@ NewHandle(e, cid, B, relax) ==
      B |-> B, gran |-> IsGranular(e.fmt), skb |-> (e.st.sk # 0),      \* (SF_INFO.seekable is zeroed for write handles; the handle itself knows)
      frames |-> IF ModeOf(e.mode) = SFM_WRITE THEN 0 ELSE IF relax THEN Min(e.st.fr, 1000000) ELSE e.st.fr, rpos |-> e.st.rp, wpos |-> e.st.wp, err |-> (e.st.er # 0),
      hw |-> (e.st.hw # 0), auto |-> FALSE, relax |-> relax, cid |-> cid, fid |-> e.fid, route |-> e.route, meta |-> <<>>,
-     wch |-> <<>>, rch |-> <<>>, it |-> [mode |-> "none"], nd |-> e.st.nd, nf |-> e.st.nf, fmeta |-> <<>>]
+     wch |-> <<>>, rch |-> <<>>, it |-> [mode |-> "none"], nd |-> e.st.nd, nf |-> e.st.nf, fmeta |-> <<>>, nreal |-> -1, sif |-> e.st.sif, sfi |-> e.st.sfi, cl |-> e.st.cl]
 
 OpenFailedOK(e) == /\ e.gerr # 0 /\ e.gmsg > 0              \* C09: NULL, global error with a message
                    /\ Get(e, "fdleak", 0) = 0               \* C16: nothing left behind
@@ -304,16 +304,20 @@ OpenNewOK(e) ==
          /\ Major(e.fmt) = Major(e.afmt) /\ Sub(e.fmt) = Sub(e.afmt)
 
 \* existing file produced earlier in this scenario (closed file, or crash image)
-OpenWrittenOK(e, f) ==
+OpenWrittenOKx(e, f, est) ==
     LET info == [ch |-> e.ch, fmt |-> e.fmt, rate |-> e.rate, fr |-> e.fr, frneg |-> e.frneg, sec |-> e.sec] IN
     /\ e.ok = 1 /\ e.gerr = 0 /\ e.st.er = 0
     /\ Sane(info)
     /\ InfoMatches(f.fmt, f.ch, f.rate, info)
     /\ e.st.fr = e.fr /\ e.st.rp = 0
-    /\ IF f.kind = "written" THEN FramesAfterClose(f.fmt, f.ch, f.B, f.N, e.fr)
+    /\ IF f.kind = "written" THEN (IF est /\ Major(f.fmt) = M_RAW /\ Sub(f.fmt) \in {S_DWVW12, S_DWVW16, S_DWVW24, S_DWVWN}
+                                   THEN e.fr >= 0            \* headerless bit stream, the count is an estimate from the file length
+                                   ELSE FramesAfterClose(f.fmt, f.ch, f.B, f.N, e.fr))
        ELSE \* crash image (C11); DWVW has no frame aligned blocks: any prefix
             IF Sub(f.fmt) \in {S_DWVW12, S_DWVW16, S_DWVW24, S_DWVWN} THEN e.fr <= f.N
             ELSE FramesInImage(f.B, f.N, e.fr)
+
+OpenWrittenOK(e, f) == OpenWrittenOKx(e, f, FALSE)
 
 OpenHostileOK(e) ==
     IF e.ok = 0 THEN OpenFailedOK(e)
@@ -333,7 +337,7 @@ OpenOK(e) ==
     CASE e.mode = "rw" /\ e.ok = 0 -> OpenFailedOK(e)       \* the library decides which encodings can be opened RDWR (C08 quantifies over those)
       \* C14: embedding / pipes only for the containers that support them (docs: WAV, AIFF, AU; WAVEX shares the WAV parser):
       \* for those a valid file embedded at an offset must open
-      [] e.route \in {"emb44", "emb4096", "embz44", "embz4096", "pipe"} /\ e.ok = 0
+      [] e.route \in {"emb44", "emb4096", "embz44", "embz4096", "embw44", "pipe"} /\ e.ok = 0
          /\ ~(e.route # "pipe" /\ e.mode = "r" /\ OpenClass(e) = "written" /\ Major(FileOf(e).fmt) \in {M_WAV, M_WAVEX, M_AIFF, M_AU}) -> OpenFailedOK(e)
       [] OpenClass(e) = "new" -> IF FaultOn(e) \/ CfgRelax THEN (e.ok = 0 => OpenFailedOK(e)) ELSE OpenNewOK(e)
       [] OpenClass(e) = "written" -> OpenWrittenOK(e, FileOf(e))
@@ -350,7 +354,8 @@ OpenEffect(e) ==
          LET cv == cont[f.cid] n == e.fr * e.ch
              cv2 == IF Len(cv.kt) >= n THEN cv
                     ELSE [cv EXCEPT !.val = cv.val \o Rep(0, n - Len(cv.val)), !.kt = cv.kt \o Rep("-", n - Len(cv.kt))] IN
-         /\ hs' = [hs EXCEPT ![h] = [NewHandle(e, f.cid, B, relax) EXCEPT !.rch = Get(f, "chunks", <<>>), !.fmeta = Get(f, "meta", <<>>)]]
+         /\ hs' = [hs EXCEPT ![h] = [NewHandle(e, f.cid, B, relax) EXCEPT !.rch = Get(f, "chunks", <<>>), !.fmeta = Get(f, "meta", <<>>),
+                                                                            !.nreal = IF f.kind = "written" THEN f.N ELSE -1]]
          /\ cont' = [cont EXCEPT ![f.cid] = cv2]
          /\ ncid' = ncid
     ELSE /\ hs' = [hs EXCEPT ![h] = NewHandle(e, ncid, B, relax)]
@@ -453,8 +458,13 @@ Obs ==
                  /\ UNCHANGED <<files, ncid, closed, nclose, canon, aux>>
 
 \* coarse reason for a rejection (evaluated only when Obs is not enabled)
+\* (rejections whose only cause is the frame-count estimate of a headerless DWVW stream get their own reason, so that the known
+\*  finding about it does not cover anything else that may go wrong with such a file)
 Why(e) ==
-    IF e.op = "open" THEN "open:" \o OpenClass(e)
+    IF e.op = "open" /\ OpenClass(e) = "written" /\ OpenWrittenOKx(e, FileOf(e), TRUE) THEN "open:est"
+    ELSE IF e.op = "read" /\ e.T # "r" /\ e.h >= 0 /\ hs[e.h].life = "open" /\ Has(e, "st") /\ ~hs[e.h].relax /\ ~FaultOn(e)
+            /\ ReadOKx(hs[e.h], cont[hs[e.h].cid], CallOf(e), ObsOf(e), TRUE) THEN "read:est"
+    ELSE IF e.op = "open" THEN "open:" \o OpenClass(e)
     ELSE IF e.op \in {"crash", "timeout"} THEN e.op \o ":" \o e.during
     ELSE IF e.op = "end" THEN "ledger"
     ELSE IF e.op = "close" THEN "close"
